@@ -52,6 +52,7 @@ def model (textB jsonB : HHmmBounds) : List String → Option String
     t.map fun t => "text " ++ hexOf t
   | "rt" :: _ => some "same"
   | ["fresh", _] => some "ok"     -- the first call of a process behaves like any other
+  | ["jsonkey", _, _, _] => some "returned"   -- accepted or rejected: decoding comes back
   | ["taskobj", f, t] =>
     -- both dates are required: given or "" (no date) is accepted, null or left out is rejected
     let given := fun (x : String) => x = "valid" ∨ x = "empty"
@@ -155,6 +156,7 @@ def spec : List String → List String → Option String
     | _ => some "bad formatting yields text"
   | "rt" :: _, impl => some (Driver.expect "same" impl)
   | ["fresh", _], impl => some (Driver.expect "ok" impl)
+  | ["jsonkey", _, _, _], impl => some (Driver.expect "returned" impl)
   | ["taskobj", f, t], impl =>
     let given := fun (x : String) => x = "valid" ∨ x = "empty"
     some (Driver.expect (if given f ∧ given t then "ok" else "err") impl)
